@@ -2027,6 +2027,20 @@ impl<Front: SocketHandler> ConnectionH2<Front> {
         match parser::frame_header(i, self.local_settings.settings_max_frame_size) {
             Ok((_, header)) => {
                 trace!("{} {:#?}", log_context!(self), header);
+                if self.interim_still_queued(&header, context) {
+                    // The previous header block of this stream was an interim
+                    // response (1xx) that the frontend has not written yet. The
+                    // stream has one response buffer: the block this frame opens
+                    // (the final response, or another interim) has nowhere to go,
+                    // and unlike an H1 backend's bytes it cannot wait in the
+                    // socket behind a paused parser. Park the connection on the
+                    // frame header (kept in `zero`, re-parsed on resume) until
+                    // the frontend has flushed the interim: `try_resume_reading`
+                    // re-arms READABLE after each frontend write.
+                    self.expect_read = Some((H2StreamId::Zero, 0));
+                    self.readiness.interest.remove(Ready::READABLE);
+                    return MuxResult::Continue;
+                }
                 self.zero.storage.clear();
                 let stream_id = header.stream_id;
                 // RFC 9113 §6.10: CONTINUATION frames MUST be preceded by a
@@ -4164,6 +4178,22 @@ impl<Front: SocketHandler> ConnectionH2<Front> {
         L: ListenerHandler + L7ListenerHandler,
     {
         let credited = self.release_stream_credit(context);
+        // Parked by `handle_header_state` on the frame header of a HEADERS
+        // frame, behind an interim response the frontend had not flushed.
+        if let (Some((H2StreamId::Zero, 0)), H2State::Header) = (self.expect_read, &self.state) {
+            let still_queued = parser::frame_header(
+                self.zero.storage.data(),
+                self.local_settings.settings_max_frame_size,
+            )
+            .map(|(_, header)| self.interim_still_queued(&header, context))
+            .unwrap_or(false);
+            if !still_queued {
+                self.readiness.interest.insert(Ready::READABLE);
+                self.readiness.signal_pending_read();
+                return true;
+            }
+            return credited;
+        }
         if let Some((
             H2StreamId::Other {
                 gid: global_stream_id,
@@ -4214,6 +4244,27 @@ impl<Front: SocketHandler> ConnectionH2<Front> {
             self.queue_window_update(stream_id, grant);
         }
         !grants.is_empty()
+    }
+
+    /// Backend connection only: `header` opens a HEADERS frame on a stream whose
+    /// response buffer still holds an interim response (1xx, a terminated
+    /// message that does not end the stream) not yet written to the frontend.
+    fn interim_still_queued<L>(&self, header: &parser::FrameHeader, context: &Context<L>) -> bool
+    where
+        L: ListenerHandler + L7ListenerHandler,
+    {
+        if !self.position.is_client() || header.frame_type != FrameType::Headers {
+            return false;
+        }
+        let Some(global_stream_id) = self.streams.get(&header.stream_id) else {
+            return false;
+        };
+        let back = &context.streams[*global_stream_id].back;
+        back.is_terminated()
+            && matches!(
+                back.detached.status_line,
+                kawa::StatusLine::Response { code, .. } if (100..200).contains(&code) && code != 101
+            )
     }
 
     /// Mark a stream's position-appropriate end-of-stream flag.
@@ -6590,6 +6641,15 @@ impl<Front: SocketHandler> ConnectionH2<Front> {
                     self.remove_dead_stream(id, stream_gid);
                     if context.streams[stream_gid].state != StreamState::Recycle {
                         context.streams[stream_gid].state = StreamState::Unlinked;
+                    }
+                    // Parked by `handle_header_state` behind an interim response
+                    // of (possibly) this stream: nothing will flush it now, the
+                    // frame belongs to a retired stream. Read on.
+                    if let (Some((H2StreamId::Zero, 0)), H2State::Header) =
+                        (self.expect_read, &self.state)
+                    {
+                        self.readiness.interest.insert(Ready::READABLE);
+                        self.readiness.signal_pending_read();
                     }
                     return;
                 }
